@@ -11,11 +11,11 @@ namespace WowSrp
 
 /-- two spellings of a credential that differ at most in ASCII letter case: same length, and equal
     character by character after ASCII upper-casing (`Char.toUpper` moves exactly 'a'..'z') -/
-def SameUpToAsciiCase (cs cs' : List Char) : Prop :=
+def SameUpToLetterCase (cs cs' : List Char) : Prop :=
   cs.length = cs'.length ∧
   ∀ (i : Nat) (h : i < cs.length) (h' : i < cs'.length), cs[i].toUpper = cs'[i].toUpper
 
-theorem SameUpToAsciiCase.map_upperCode {cs cs' : List Char} (h : SameUpToAsciiCase cs cs') :
+theorem SameUpToLetterCase.map_upperCode {cs cs' : List Char} (h : SameUpToLetterCase cs cs') :
     cs.map upperCode = cs'.map upperCode := by
   apply List.ext_getElem
   · simp [h.1]
@@ -26,7 +26,7 @@ theorem SameUpToAsciiCase.map_upperCode {cs cs' : List Char} (h : SameUpToAsciiC
 
 /-- **credentials are case-insensitive**: a spelling that differs only in ASCII case constructs the
     very same `NormalizedString` -/
-theorem C01_case_invariant (cs cs' : List Char) (h : SameUpToAsciiCase cs cs') :
+theorem C01_case_invariant (cs cs' : List Char) (h : SameUpToLetterCase cs cs') :
     NStr.new cs = NStr.new cs' := NStr.new_congr cs cs' h.map_upperCode
 
 /-- **storage round trip of the record**: `from_database_values (username, verifier, salt)` is the
@@ -95,7 +95,7 @@ example : ∃ (v : Bytes), v.length = 32 ∧ ∀ (be : Backend) (u : NStr) (salt
 theorem C01_login_exact (C : Crypto) (hC : C.WF) (hx : C.XorHashOk) (be : Backend)
     (us ps uc pc : List Char) (viaStorage : Bool) (salt b a challenge : Bytes) (U P : NStr)
     (hU : NStr.new us = .ok U) (hP : NStr.new ps = .ok P)
-    (hu : SameUpToAsciiCase us uc) (hp : SameUpToAsciiCase ps pc)
+    (hu : SameUpToLetterCase us uc) (hp : SameUpToLetterCase ps pc)
     (hB : (3 * (7 ^ Spec.x C U.asRef P.asRef salt % Spec.N) + 7 ^ ofLE b % Spec.N) % Spec.N ≠ 0) :
     let x := Spec.x C U.asRef P.asRef salt
     let v := Spec.v 7 x Spec.N
@@ -151,7 +151,7 @@ theorem C01_login_exact (C : Crypto) (hC : C.WF) (hx : C.XorHashOk) (be : Backen
 theorem C01_login_agrees (C : Crypto) (hC : C.WF) (hx : C.XorHashOk) (be : Backend)
     (us ps uc pc : List Char) (viaStorage : Bool) (salt b a challenge : Bytes) (U P : NStr)
     (hU : NStr.new us = .ok U) (hP : NStr.new ps = .ok P)
-    (hu : SameUpToAsciiCase us uc) (hp : SameUpToAsciiCase ps pc)
+    (hu : SameUpToLetterCase us uc) (hp : SameUpToLetterCase ps pc)
     (hB : (3 * (7 ^ Spec.x C U.asRef P.asRef salt % Spec.N) + 7 ^ ofLE b % Spec.N) % Spec.N ≠ 0) :
     ∃ K A B M1 M2 vbytes,
       runLogin C be us ps uc pc viaStorage salt b a challenge = .ok K K A B M1 M2 vbytes ∧
@@ -169,7 +169,7 @@ theorem C01_real_assumptions : Crypto.real.WF ∧ Crypto.real.XorHashOk :=
 theorem C01_real (be : Backend)
     (us ps uc pc : List Char) (viaStorage : Bool) (salt b a challenge : Bytes) (U P : NStr)
     (hU : NStr.new us = .ok U) (hP : NStr.new ps = .ok P)
-    (hu : SameUpToAsciiCase us uc) (hp : SameUpToAsciiCase ps pc)
+    (hu : SameUpToLetterCase us uc) (hp : SameUpToLetterCase ps pc)
     (hB : (3 * (7 ^ Spec.x Crypto.real U.asRef P.asRef salt % Spec.N) + 7 ^ ofLE b % Spec.N) % Spec.N ≠ 0) :
     ∃ K A B M1 M2 vbytes,
       runLogin Crypto.real be us ps uc pc viaStorage salt b a challenge = .ok K K A B M1 M2 vbytes ∧
@@ -197,12 +197,12 @@ private def exP : NStr :=
   ⟨[0x50, 0x41, 0x53, 0x53, 0x57, 0x4f, 0x52, 0x44, 0x31, 0x32, 0x33] ++ List.replicate 5 0, 11⟩
 
 example : NStr.new "alice".toList = .ok exU ∧ NStr.new "password123".toList = .ok exP ∧
-    SameUpToAsciiCase "alice".toList "Alice".toList ∧
-    SameUpToAsciiCase "password123".toList "PassWord123".toList ∧
+    SameUpToLetterCase "alice".toList "Alice".toList ∧
+    SameUpToLetterCase "password123".toList "PassWord123".toList ∧
     exSalt.length = 32 ∧ exA.length = 32 ∧ exB.length = 32 ∧ exChallenge.length = 16 ∧
     (3 * (7 ^ Spec.x Crypto.real exU.asRef exP.asRef exSalt % Spec.N) + 7 ^ ofLE exB % Spec.N) % Spec.N ≠ 0 := by
-  refine ⟨by decide +kernel, by decide +kernel, by unfold SameUpToAsciiCase; decide +kernel,
-    by unfold SameUpToAsciiCase; decide +kernel, by decide, by decide, by decide, by decide, ?_⟩
+  refine ⟨by decide +kernel, by decide +kernel, by unfold SameUpToLetterCase; decide +kernel,
+    by unfold SameUpToLetterCase; decide +kernel, by decide, by decide, by decide, by decide, ?_⟩
   rw [← powMod_spec, ← powMod_spec]
   decide +kernel
 
@@ -210,8 +210,8 @@ example (be : Backend) (viaStorage : Bool) : ∃ K A B M1 M2 vbytes,
     runLogin Crypto.real be "alice".toList "password123".toList "Alice".toList "PassWord123".toList
       viaStorage exSalt exB exA exChallenge = .ok K K A B M1 M2 vbytes ∧ K.length = 40 :=
   C01_real be _ _ _ _ viaStorage exSalt exB exA exChallenge exU exP (by decide +kernel)
-    (by decide +kernel) (by unfold SameUpToAsciiCase; decide +kernel)
-    (by unfold SameUpToAsciiCase; decide +kernel)
+    (by decide +kernel) (by unfold SameUpToLetterCase; decide +kernel)
+    (by unfold SameUpToLetterCase; decide +kernel)
     (by rw [← powMod_spec, ← powMod_spec]; decide +kernel)
 
 end WowSrp
